@@ -956,6 +956,7 @@ def check_C06(v, tier, seed):
     cov["tie_mismatches"] = broken
     cov["layouts"] = len(masks)
     cov["handle_constructors"] = ctor
+    cov["pspec_vs_live_kernel"] = pspec_validation(v, "C06", seed, sizes(tier, 600, 6000))
     cov["racing_mount"] = race
     cov.update(stats)
     return cov
@@ -1029,7 +1030,26 @@ def check_C07(v, tier, seed):
                    "x {private full procfs, host /proc} x both resolvers; non-trivial = at least 3 system calls")
     cov["tie_mismatches"] = broken
     cov["resolver_pairs_compared"] = pairs
+    cov["pspec_vs_live_kernel"] = pspec_validation(v, "C07", seed, sizes(tier, 800, 8000))
     return cov
+
+
+def pspec_validation(v, prop, seed, n):
+    """PWorld.resolveBeneath (Kernel/ProcWorld.lean), the trusted specification of
+    openat2(RESOLVE_BENEATH|RESOLVE_NO_XDEV|RESOLVE_NO_MAGICLINKS) behind the C06/C07 refinement theorems, evaluated by the
+    model driver on generated trees against the live kernel's answer to that very call (harness `kernb` line)."""
+    r = Run(f"{prop}-pspec", ["root", "--ops", "lookups", "--seed", str(seed + 61), "--n", str(n)])
+    st = {"ok": 0, "skip": 0, "DIFF": 0}
+    for cid, (verdict, line) in r.extra.get("pspec", {}).items():
+        st[verdict] = st.get(verdict, 0) + 1
+        if verdict == "DIFF":
+            c = r.by_id.get(cid)
+            facts = case_facts(c) if c else {}
+            facts.update({"kind": "spec", "verdict": line})
+            v.fail(facts, case_replay(c, "the specification PWorld.resolveBeneath disagrees with the live kernel's "
+                                         "openat2(RESOLVE_BENEATH|RESOLVE_NO_XDEV|RESOLVE_NO_MAGICLINKS) on this tree and path: " + line,
+                                      {"broken": ["validation of PWorld.resolveBeneath against raw openat2"]}), concrete=False)
+    return st
 
 
 def oracle_reopen(c):
